@@ -135,7 +135,33 @@ func genEntries(r *Rng, n int, o Opt) (es []Entry, profile string) {
 		b.Key, b.ML = es[i].Key, es[i].ML
 		es[i] = b
 	}
-	switch r.Pick(7, 5, 3, 2, 2, 1) {
+	switch r.Pick(7, 5, 3, 2, 2, 1, 2) {
+	case 6:
+		// one bad entry, repeated verbatim at the heads of later chunks and at
+		// a few other places: state keyed on an entry's content (a memo, a
+		// cache) that survives from one chunk to the next shows up here
+		profile = "repbad"
+		a := r.Intn(n)
+		if r.Chance(2, 3) && n > 64 {
+			a = r.Intn(64)
+		}
+		b := genBad(r, o)
+		if r.Chance(2, 3) { // prefer entries that satisfy the group equation and are rejected by a rule
+			b.K = []string{"tor", "tor0", "smRv", "sL", "tor0", "tor"}[r.Intn(6)]
+			b.Q &^= 1
+		}
+		b.Key, b.ML = es[a].Key, es[a].ML
+		es[a] = b
+		for _, p := range []int{64, 65, 66, 128, 129, 192, a + 1, a + 64, n - 1} {
+			if p > a && p < n && r.Chance(2, 3) {
+				es[p] = Entry{K: "dup", P: a}
+			}
+		}
+		for j := r.Intn(4); j > 0; j-- {
+			if p := a + 1 + r.Intn(n-a); p < n {
+				es[p] = Entry{K: "dup", P: a}
+			}
+		}
 	case 0:
 		profile = "allgood"
 	case 1:
